@@ -213,11 +213,19 @@ func TestC09OracleCatchesLeaks(t *testing.T) {
 	caught := 0
 	for i := 0; i < 40; i++ {
 		c := c09SharedCase(r, "quick")
-		d := p.Oracle(c, c09Exec(c.Hist))
+		leaky := c09Exec(c.Hist)
+		d := p.Oracle(c, leaky)
+		// the simulated defect is visible only when at least two renders succeed and show
+		// different texts (a File whose renders are all format errors has nothing cached):
+		// whenever it changes anything at all, the oracle must notice
+		visible := c09SameJob(real(c.Hist), leaky) != ""
 		if d != "" {
 			caught++
-		} else if c.NonTrivial {
-			t.Fatalf("shared: File-less cache not detected on a non-trivial case\n%s", c.Hist.Sexp())
+			if !visible {
+				t.Fatalf("shared: oracle fails although the simulated defect changed nothing: %s", d)
+			}
+		} else if visible {
+			t.Fatalf("shared: File-less cache not detected although it changed an output\n%s", c.Hist.Sexp())
 		}
 	}
 	if caught < 30 {
